@@ -11,6 +11,8 @@ ANALYSIS-ERROR -- normalisation never guesses):
                            never re-bound tuple of *functions* (or rows containing functions) -> the or / and chain /
                            the unrolled statements (the private helpers named by the table are then inlined)
   E. ``project_namedtuples``  ``p = _P(e1, e2)`` .. ``p.a``     ->  ``p__a = e1; p__b = e2; p = _P(p__a, p__b)`` .. ``p__a``
+  H. ``forward_single_cell``  ``box = []`` .. ``box.append(v)`` .. ``box[0]``  ->  .. ``v``  (a local one-element list that nothing else
+                           can reach, one append site outside loops, the read later in the append's own block)
 """
 import ast
 import copy
@@ -895,3 +897,137 @@ def forward_lazy_temps(tree):
             return stmts
         _map_blocks(fn, fix)
     return n[0]
+
+
+# ------------------------------------------------------------------------------------------------ H. one-element lists
+def _cell_index(e):
+    """``0`` / ``-1`` as a subscript"""
+    if isinstance(e, ast.Constant) and type(e.value) is int and e.value in (0, -1):
+        return True
+    return isinstance(e, ast.UnaryOp) and isinstance(e.op, ast.USub) and isinstance(e.operand, ast.Constant) and \
+        type(e.operand.value) is int and e.operand.value == 1
+
+
+def forward_single_cell(tree):
+    """``box = []`` .. ``box.append(v)`` .. ``box[0]``  ->  ``box = []`` .. ``box.append(v)`` .. ``v``   (also ``box[-1]``, and the append
+    made through a bound-method temporary ``put = box.append`` .. ``put(v)``).
+
+    Same program when: ``box`` is a plain local bound once, to ``[]``, by a top-level statement of the function; every other
+    mention of it (none in a nested scope) is that one append statement, a ``put = box.append`` whose target is a local bound
+    once and only ever called as a statement with one argument, or a ``box[0]`` / ``box[-1]`` read -- so nothing else can hold or
+    change the list; there is exactly one append site, outside any loop, later than the binding, its argument a plain local
+    ``v``; the read sits in a later statement of the very block of the append (so the append ran, once) and no statement from
+    the append up to it re-binds ``v``.  The list then holds exactly the object ``v`` names."""
+    total = 0
+    for fn in _functions(tree):
+        parent = {}
+        for p in ast.walk(fn):
+            for c in ast.iter_child_nodes(p):
+                parent[id(c)] = p
+        a = fn.args
+        params = set(x.arg for x in a.posonlyargs + a.args + a.kwonlyargs) | set(x.arg for x in (a.vararg, a.kwarg) if x is not None)
+        declared = set(nm for x in ast.walk(fn) if isinstance(x, (ast.Global, ast.Nonlocal)) for nm in x.names)
+        own_ids = set(id(x) for s in fn.body for x in _walk_same_scope(s))
+        occ = {}
+        for x in ast.walk(fn):
+            if isinstance(x, ast.Name):
+                occ.setdefault(x.id, []).append(x)
+        if any(isinstance(x, ast.Call) and isinstance(x.func, ast.Name) and x.func.id in ('locals', 'vars', 'eval', 'exec') for x in ast.walk(fn)):
+            continue
+
+        def plain_local_once(name):
+            """bound exactly once in the function's own scope, never mentioned in a nested scope / global / nonlocal"""
+            if name in params or name in declared:
+                return False
+            xs = occ.get(name, [])
+            return all(id(x) in own_ids for x in xs) and len([x for x in xs if not isinstance(x.ctx, ast.Load)]) == 1
+
+        def stmt_call_site(name_node):
+            """``name_node`` is the callee of ``<callee>(arg)`` standing as a statement -> (statement, arg) else None"""
+            c = parent.get(id(name_node))
+            if isinstance(c, ast.Call) and c.func is name_node and len(c.args) == 1 and not c.keywords and not isinstance(c.args[0], ast.Starred) \
+                    and isinstance(parent.get(id(c)), ast.Expr):
+                return parent[id(c)], c.args[0]
+            return None
+        for k, s0 in enumerate(fn.body):
+            if not (isinstance(s0, ast.Assign) and len(s0.targets) == 1 and isinstance(s0.targets[0], ast.Name) and
+                    isinstance(s0.value, ast.List) and not s0.value.elts):
+                continue
+            box = s0.targets[0].id
+            if not plain_local_once(box):
+                continue
+            sites, reads, ok = [], [], True
+            for x in occ[box]:
+                if x is s0.targets[0]:
+                    continue
+                p = parent.get(id(x))
+                if isinstance(p, ast.Attribute) and p.value is x and p.attr == 'append' and isinstance(p.ctx, ast.Load):
+                    site = stmt_call_site(p)
+                    gp = parent.get(id(p))
+                    if site is not None:
+                        sites.append(site)
+                    elif isinstance(gp, ast.Assign) and gp.value is p and len(gp.targets) == 1 and isinstance(gp.targets[0], ast.Name) \
+                            and plain_local_once(gp.targets[0].id):
+                        for y in occ[gp.targets[0].id]:
+                            if y is gp.targets[0]:
+                                continue
+                            site = stmt_call_site(y)
+                            if site is None:
+                                ok = False
+                            else:
+                                sites.append(site)
+                    else:
+                        ok = False
+                elif isinstance(p, ast.Subscript) and p.value is x and isinstance(p.ctx, ast.Load) and _cell_index(p.slice):
+                    reads.append(p)
+                else:
+                    ok = False
+            if not ok or len(sites) != 1 or not reads:
+                continue
+            site, arg = sites[0]
+            if not isinstance(arg, ast.Name) or arg.id in declared or arg.id == box or \
+                    not all(id(x) in own_ids for x in occ.get(arg.id, [])) or \
+                    not (arg.id in params or any(not isinstance(x.ctx, ast.Load) for x in occ.get(arg.id, []))):
+                continue
+            # the append statement: outside loops, later than the binding; its block
+            chain_, cur = [], site
+            while cur is not fn and cur is not None:
+                chain_.append(cur)
+                cur = parent.get(id(cur))
+            if cur is None or any(isinstance(x, (ast.For, ast.AsyncFor, ast.While)) for x in chain_):
+                continue
+            top = chain_[-1]
+            if not any(top is s for s in fn.body[k + 1:]):
+                continue
+            holder = parent[id(site)]
+            block = None
+            for field in ('body', 'orelse', 'finalbody'):
+                sub = getattr(holder, field, None)
+                if isinstance(sub, list) and any(s is site for s in sub):
+                    block = sub
+            if block is None:
+                continue
+            i = [j for j, s in enumerate(block) if s is site][0]
+            for r in reads:
+                cur = r
+                while cur is not None and not any(cur is s for s in block):
+                    cur = parent.get(id(cur))
+                if cur is None:
+                    continue
+                j = [m for m, s in enumerate(block) if s is cur][0]
+                if j <= i or arg.id in _stored_names(block[i + 1:j + 1]):
+                    continue
+                rp = parent[id(r)]
+                new = ast.copy_location(ast.Name(id=arg.id, ctx=ast.Load()), r)
+                for field, val in ast.iter_fields(rp):
+                    if val is r:
+                        setattr(rp, field, new)
+                    elif isinstance(val, list):
+                        for m, it in enumerate(val):
+                            if it is r:
+                                val[m] = new
+                parent[id(new)] = rp
+                occ[arg.id].append(new)
+                own_ids.add(id(new))
+                total += 1
+    return total
